@@ -47,7 +47,9 @@ OPS = ["RR", "BV", "BF 1 0", "BF 1 4", "BF 1 5", "BF 1 1000000", "BF 0 100", "CO
        "WR 100 n", "WR 200 n", "WR 200 t", "WR 404 t", "WR 500 n", "WR 200 d", "WR 200 cl", "WR 200 ct", "WR 200 te",
        "WR 200 fm", "WR 200 fs", "SH",
        # a response that is refused before its first byte although its status would close the connection
-       "WR 500 cl", "WR 503 ct", "WR 500 te", "WR 404 cl"]
+       "WR 500 cl", "WR 503 ct", "WR 500 te", "WR 404 cl",
+       # the conflicting field twice
+       "WR 200 cl2", "WR 200 ct2", "WR 200 te2"]
 OPS_CORE = ["RR", "BV", "BF 1 4", "BF 1 5", "BF 0 100", "CO", "WR 100 n", "WR 200 t", "WR 500 n", "WR 200 d", "WR 200 cl", "WR 200 fm", "SH", "WR 500 cl"]
 
 def gen(rng, tier):
